@@ -87,15 +87,20 @@ pub fn input_case(recs: &[Vec<u8>], container: &str) -> (IoCase, &'static str) {
             .enumerate()
             .map(|(i, s)| Src { id: format!("r{}", i).into_bytes(), desc: None, seq: s.clone(), qual: vec![b'I'; s.len()] })
             .collect(),
-        container: if container.ends_with("gz") { "gzc".into() } else { "plain".into() },
+        container: if container.ends_with("gzm") { "gzm".into() } else if container.ends_with("gz") { "gzc".into() } else { "plain".into() },
         suffix: if fastq { ".fq".into() } else { ".fa".into() },
     };
-    (c, if container.ends_with("gz") { ".gz" } else { "" })
+    (c, if container.ends_with("gz") || container.ends_with("gzm") { ".gz" } else { "" })
 }
 
 /// write the records in the requested container; returns the path
 pub fn write_input(work: &str, uid: &str, recs: &[Vec<u8>], container: &str) -> String {
-    let (c, gz) = input_case(recs, container);
+    let (mut c, gz) = input_case(recs, container);
+    if c.container == "gzm" {
+        // two gzip members cut in the middle of the text (bgzip / concatenated .gz)
+        let n = crate::p_io::serialise(&c).len();
+        c.container = format!("gzm:{}", n / 2);
+    }
     let path = format!("{}/in_{}{}{}", work, uid, c.suffix, gz);
     write_container(&path, &crate::p_io::serialise(&c), &c.container);
     path
@@ -469,7 +474,7 @@ pub fn run_files(which: &str, tier: &str, seed: u64, model: &Model, corpus_lines
         let container = match rng.below(6) {
             0 => "fq".to_string(),
             1 => format!("fawrap:{}", rng.pick(&[1usize, 7, 60])),
-            2 => "fagz".to_string(),
+            2 => if rng.chance(1, 2) { "fagz".to_string() } else { "fagzm".to_string() },
             3 => "fqgz".to_string(),
             _ => "fa".to_string(),
         };
